@@ -28,6 +28,7 @@ REQUIRED_THEOREMS = ['CfVerif.C05.' + t for t in (
     'add_config_partial_failure', 'configured_list_stable', 'accepted_variables_are_configured_list',
     'synclogger_fifo', 'sample_queued_once', 'next_takes_head', 'ends_at_disconnect',
     'gen_sl_statement_order', 'inv_initial', 'no_sample_lost', 'interleaved_fifo',
+    'gen_reset_ack', 'late_control_ack_keeps_blocks', 'registered_blocks_stay',
     'gen_packet_fresh', 'wire_is_what_was_sent', 'create_wire_enumerates', 'history_wire_is_sent', 'reused_packet_counterexample',
     # Gen obligations
     'gen_types_single_code', 'gen_id_from_cstring', 'gen_logvar_init', 'gen_conf_init', 'gen_add_variable', 'gen_flag_setters',
@@ -291,6 +292,32 @@ def extract(ctx):
         f = X.find(sl, fn)
         g.strings('sl' + fn.strip('_').capitalize() + 'Body', [ast.unparse(s).replace('\n', ' ; ') for s in f.body
                                                               if not (isinstance(s, ast.Expr) and isinstance(s.value, ast.Constant))])
+    # the reset acknowledgement: `log_blocks` is cleared only under the duplicate-answer guard `if not self.toc`
+    rbr = [n for n in ast.walk(np_) if isinstance(n, ast.If) and ast.unparse(n.test) in ('cmd == CMD_RESET_LOGGING', '(cmd == CMD_RESET_LOGGING)')]
+    X.expect(len(rbr) == 1, '_new_packet_cb: reset branch not found')
+    rshape = []
+
+    def rwalk(body):
+        for stn in body:
+            if isinstance(stn, ast.Expr) and isinstance(stn.value, ast.Call) and ast.unparse(stn.value.func).startswith('logger.'):
+                continue
+            if isinstance(stn, ast.If):
+                rshape.append('if ' + ast.unparse(stn.test) + ':')
+                rwalk(stn.body)
+                rshape.append('else:' if stn.orelse else 'endif')
+                if stn.orelse:
+                    rwalk(stn.orelse)
+                    rshape.append('endif')
+            elif isinstance(stn, ast.Assign):
+                rshape.append(ast.unparse(stn.targets[0]) + ' = ' + (ast.unparse(stn.value) if len(ast.unparse(stn.value)) < 12 else ast.unparse(stn.value).split('(')[0] + '(...)'))
+            else:
+                rshape.append(ast.unparse(stn).split('(')[0] + ('(...)' if '(' in ast.unparse(stn) else ''))
+    rwalk(rbr[0].body)
+    g.strings('resetAckShape', rshape)
+    g.strings('logBlocksWrites', sorted('%s: %s' % (f.name, ast.unparse(n)) for f in lg.body if isinstance(f, ast.FunctionDef)
+                                        for n in ast.walk(f) if (isinstance(n, ast.Assign) and ast.unparse(n.targets[0]) == 'self.log_blocks')
+                                        or (isinstance(n, ast.Call) and ast.unparse(n.func).startswith('self.log_blocks.'))))
+
     # packet freshness: every message is a fresh CRTPPacket constructed inside the loop / the sending function; no packet object
     # is reused across iterations or stored on self (links serialise later than send_packet returns)
     loops = [n for n in ast.walk(cr) if isinstance(n, ast.While)]
@@ -1482,7 +1509,7 @@ def search(ctx):
                 hist.append(op)
                 evs = []
             else:
-                cmd, status = rng.choice([0, 6, 6, 3, 3, 4, 2, 1, 7]), rng.choice([0, 0, 0, 17, 2, 7, 12])
+                cmd, status = rng.choice([0, 6, 6, 3, 3, 4, 2, 1, 7, 5]), rng.choice([0, 0, 0, 17, 2, 7, 12])
                 r.do(['rx', '1', bytes([cmd, c.id, status]).hex()])
                 hist.append((cmd, status))
                 f2 = _spec_ack(cmd, status, f)
@@ -1493,6 +1520,79 @@ def search(ctx):
                 ctx.witness('flags-follow-acks', 'added/started flags or callbacks do not follow the acknowledgements', {'history': hist},
                             flags=(c.added, c.started), expected=f, callbacks=got_evs, expected_callbacks=evs)
                 break
+
+    # (4b) late / duplicated control acknowledgements of EVERY command (create, append, start, stop, delete, RESET; for the block,
+    #      for another id) delivered at EVERY point of a block's life: the block stays registered - later acknowledgements still
+    #      drive its flags, its data packets are still decoded and a SyncLogger still yields them.  Also Log.reset() followed by
+    #      add_config + start before the reset is acknowledged.
+    life = ['add', 'start', 'ack-create', 'ack-start', 'data', 'stop', 'ack-stop', 'start', 'ack-start', 'data', 'delete', 'ack-delete']
+    late = [(cmd, ident) for cmd in (5, 0, 6, 1, 7, 3, 4, 2) for ident in ('block', 'other')]
+    combos = [(pos, lc_) for pos in range(1, len(life) + 1) for lc_ in late]
+    extra = 400 if th else 60
+    for trial in range(len(combos) + extra):
+        with_sl = trial % 2 == 1
+        r = Real()
+        _connect(r, 5, els40)
+        pre_reset = trial >= len(combos) and rng.random() < 0.5
+        if pre_reset:
+            r.do(['reset'])                                   # Log.reset(): its acknowledgement is still on its way
+        r.do(['newconf', '100'])
+        c = r.confs[0]
+        c.add_variable(name_str(2), 'uint16_t')
+        if with_sl:
+            r.do(['newsl', '0'])
+        if trial < len(combos):
+            inject = {combos[trial][0]: [combos[trial][1]]}
+        else:
+            inject = {}
+            for _ in range(rng.randrange(1, 4)):
+                inject.setdefault(rng.randrange(1, len(life) + 1), []).append(rng.choice(late))
+        f, hist, seq, ok = (False, False), [], 0, True
+        for pos, stepname in enumerate(life, 1):
+            if stepname == 'add':
+                r.do(['slconnect', '0'] if with_sl else ['addconfig', '0'])
+                if not with_sl:
+                    pass
+            elif stepname == 'start':
+                if not (with_sl and pos == 2):
+                    r.do(['start', '0'])
+            elif stepname in ('stop', 'delete'):
+                r.do([stepname, '0'])
+            elif stepname.startswith('ack-'):
+                cmd = {'create': 6, 'start': 3, 'stop': 4, 'delete': 2}[stepname[4:]]
+                r.do(['rx', '1', bytes([cmd, c.id, 0]).hex()])
+                f = _spec_ack(cmd, 0, f)
+            elif stepname == 'data':
+                seq += 1
+                r.do(['rx', '2', (bytes([c.id]) + seq.to_bytes(3, 'little') + b'\x07\x00').hex()])
+                dec = [e for e in r.ev if e.startswith('data:')]
+                if dec != ['data:0:%d:2=i7' % seq]:
+                    ctx.witness('late-ack-block-forgotten', 'after a late/duplicated control acknowledgement a data packet of a registered block is no '
+                                'longer decoded', {'life': life[:pos], 'late_acks': hist, 'reset_before_add': pre_reset}, decoded=dec)
+                    ok = False
+                    break
+                if with_sl:
+                    r.do(['slnext', '0'])
+                    if r.ev != ['yield:0:S/%d/0/2=i7' % seq]:
+                        ctx.witness('late-ack-block-forgotten', 'after a late/duplicated control acknowledgement SyncLogger no longer yields the decoded '
+                                    'sample', {'life': life[:pos], 'late_acks': hist, 'reset_before_add': pre_reset}, got=r.ev)
+                        ok = False
+                        break
+            hist.append(stepname)
+            for (cmd, ident) in inject.get(pos, []):
+                idv = c.id if ident == 'block' else (c.id + 3) % 255
+                r.do(['rx', '1', bytes([cmd, idv, 0]).hex()])
+                hist.append(('late', cmd, ident))
+                if ident == 'block':
+                    f = _spec_ack(cmd, 0, f)
+            if (c.added, c.started) != f:
+                ctx.witness('late-ack-block-forgotten' if any(isinstance(x, tuple) for x in hist) else 'flags-follow-acks',
+                            'flags of a registered block do not follow the acknowledgements after a late/duplicated control acknowledgement',
+                            {'life': life[:pos], 'history': hist, 'reset_before_add': pre_reset}, flags=(c.added, c.started), expected=f)
+                ok = False
+                break
+        if not ok:
+            break
 
     # (5) re-adding a configuration after a reconnect does not change its variable list (D6)
     for ndef, ntyped in ((1, 0), (2, 1), (7, 0), (13, 0), (14, 0), (3, 2)):
